@@ -148,8 +148,9 @@ def perturb_lines(lines, rnd):
 
 
 def vary_configuration(lines, rnd):
-    """The same script with its configuration calls varied in ways the model ignores: only the three low bits of the
-    enabling argument count (whatever else is set), and it does not matter which thread configures the library."""
+    """The same script with its calls varied in ways the model ignores: only the three low bits of the enabling argument
+    count (whatever else is set), it does not matter which thread configures the library, and automatic decoding gives
+    the same answers whether or not the caller asks for the language."""
     out = []
     for line in lines:
         tok = line.split()
@@ -158,5 +159,7 @@ def vary_configuration(lines, rnd):
             line = "enable %d%s" % (int(tok[1]) | hi, " other" if rnd.random() < 0.3 else "")
         elif len(tok) == 2 and tok[0] in ("enable", "inject") and rnd.random() < 0.25:
             line += " other"
+        elif len(tok) == 4 and tok[0] == "decode" and rnd.random() < 0.25:
+            line += " nolang"          # the language pointer is optional: same answers without it
         out.append(line)
     return out
